@@ -256,6 +256,9 @@ for _r in (0, 3, 7, 8, 16):
     h("kd10_prime_room%d" % _r, D + "/kd1_bitwriter.rs", "deflate::verif_kani::kd1_bitwriter", ["C06", "C16"], kernel="KD10", expect_s=60, timeout=900,
       functions=["deflate::prime", "BitWriter::flush_bits", "Pending::extend"],
       bounds="32-byte pending buffer with %d byte(s) of room, any valid bit register, bits 0..=32, any value" % _r)
+h("kd11_bound_counts_every_gzip_header_field", D + "/kd10_entry.rs", "deflate::verif_kani::kd10_entry", ["C07", "C20"], kernel="KD11", expect_s=60, timeout=900,
+  functions=["deflate::bound (gzip wrapper length)"],
+  bounds="gzip stream, any level, source length <= 2^30, every subset of {extra (6 bytes), name (2 chars), comment (4 chars), hcrc of any non-zero value}; compared with the bound of the same stream without a header")
 # ---------------------------------------------------------------- deflate: KD4/KD5 dynamic trees at reduced alphabets
 TR = D + "/kd4_trees.rs"
 TRP = "deflate::verif_kani::kd4_trees"
@@ -492,6 +495,8 @@ h("kc9_adler_len_0_1_2_3", AD, ADP, ["C09", "C08"], kernel="KC9", expect_s=60, t
 h("kc9_adler_len_4_5", AD, ADP, ["C09"], kernel="KC9", tier="thorough", expect_s=1300, timeout=3600, weight=2,
   functions=["adler32::adler32", "generic::adler32_rust", "adler32_len_16"], bounds="lengths 4 and 5, every valid start, symbolic data")
 # lengths 8 and 16 (each on its own: > 1 h) and 15/16/17 together (2400 s) did not terminate: not registered, not claimed
+h("kc9_adler_tail_reduces_any_sum", AD, ADP, ["C09"], kernel="KC9", expect_s=60, timeout=900,
+  functions=["adler32::generic::adler32_len_16 (final reduction)"], bounds="any low sum up to NMAX * 255 + BASE, any high sum, empty tail")
 h("kc9_adler_piecewise_fold_copy", AD, ADP, ["C09", "C08"], kernel="KC9", tier="thorough", expect_s=700, timeout=2400, weight=2,
   functions=["adler32::adler32", "adler32::adler32_fold_copy"], bounds="5 symbolic bytes cut at any point, every valid start; result stays a valid Adler-32 value")
 
@@ -648,10 +653,10 @@ QUICK = {
             "kd10_set_dictionary_protocol"],
     "C06": ["kd10_prime_room0", "kd10_prime_room7", "kd10_prime_room8", "kd7_refused_call_without_space_is_harmless", "kd7_starved_flush_is_completed_by_the_next_call", "kd7_zlib_wrapper", "kd7_zlib_starved_finish", "kd10_prime", "kd10_params_tune", "kd10_set_header",
             "kd8_quick_finish_n1", "ka1_alloc_overflow_and_null"],
-    "C07": ["kd8_quick_finish_n1", "kd8_quick_finish_n3", "kd7_gzip_header_none_s1"],  # kd6_stored_one_call (580 s, 18 GB): thorough tier
+    "C07": ["kd11_bound_counts_every_gzip_header_field", "kd8_quick_finish_n1", "kd8_quick_finish_n3", "kd7_gzip_header_none_s1"],  # kd6_stored_one_call (580 s, 18 GB): thorough tier
     "C08": ["ki3_window_extend_checksum_order", "ki5e_check_zlib", "ki5e_check_gzip", "ki5e_length_gzip", "ki5b_hcrc", "ki5b_fixed_part", "ki5b_name",
             "ki7_inflate_copyblock", "kc9_adler_len_0_1_2_3"],
-    "C09": ["kc9_crc_tables", "kc9_crc_braid_table", "kc9_crc_naive_step", "kc9_crc_braid_short",
+    "C09": ["kc9_adler_tail_reduces_any_sum", "kc9_crc_tables", "kc9_crc_braid_table", "kc9_crc_naive_step", "kc9_crc_braid_short",
             "kc9_crc_combine_len0_1_2", "kc9_multmodp_identity", "kc9_adler_len_0_1_2_3"],
     "C10": ["ki2_copy_match_twin_small", "ki2_extend_from_window_twin", "ki3_window_extend_ring", "kd10_reset_equals_fresh",
             "ki8_reset_equals_fresh"],
